@@ -46,7 +46,7 @@ PAR = {'billing': 4, 'counters': 1, 'lifecycle': 1, 'deps': 1, 'groups': 1, 'can
 PAR_PAIRS = {'billing': (['compact', 'compact_by_date'], ['billing', 'complete', 'started', 'deactivate', 'unschedule', 'burst'])}
 
 # in how many of four cases a 'chain' is woven into the history (see strategies)
-CHAINS = {'lifecycle': 1, 'deps': 2, 'counters': 1, 'cancel': 2, 'instances': 1, 'groups': 1, 'billing': 1}
+CHAINS = {'uncommitted': 1, 'lifecycle': 1, 'deps': 2, 'counters': 1, 'cancel': 2, 'instances': 1, 'groups': 1, 'billing': 1}
 
 
 def strategies(profile, max_ops=40):
@@ -205,7 +205,11 @@ def strategies(profile, max_ops=40):
         # (one case in three: the children arrive once the chain's job is terminal -- e.g. failed -- while their other parents live on)
         at = len(steps) if at >= 5 else 1 + at % len(steps)
         for i, s_ in enumerate(steps):
-            if i == at:
+            if i == at and profile == 'uncommitted':
+                # the children arrive in an update that stays open for a while: bunch sent now, commit somewhere in the tail
+                open_kids = [dict(k_, parents=['L1' if p < 0 else f'L{2 + p}' for p in k_['parents']]) for k_ in kids]
+                ops += [['update', 0, [], open_kids], ['jobs', -1, None, False]]
+            elif i == at:
                 # parents: -1 -> the chain's job (the most recently reserved id), others -> any existing job
                 ops.append(['late_children', 0, kids])
             ops.append(s_)
@@ -297,6 +301,14 @@ def known_signatures_of(prop):
         return set()
 
 
+def _attr(w, sig):
+    """a failure in a run where the trigger of a listed finding occurred is attributed to that finding -- unless the oracle marked it
+    ('!' prefix) as something that finding cannot explain"""
+    if sig.startswith('!'):
+        return sig[1:]
+    return w.flags[0] if w.flags else sig
+
+
 def run_case(case, step_oracle, *, final_oracle=None, nontrivial=None, extra_classes=None, sim_kw=None, guarded=True, txn_oracle=None,
              prop=None):
     """step_oracle(world, prev_view, cur_view, op, result) -> list of failures (may be async)."""
@@ -340,7 +352,7 @@ def run_case(case, step_oracle, *, final_oracle=None, nontrivial=None, extra_cla
                     # here unjudged (excluded by construction, after the fact)
                     break
                 if fine['fails']:
-                    fails = [((w.flags[0] if w.flags else s), c, f'during/after op #{i} {op}: [{s}] {m}') for s, c, m in fine['fails']]
+                    fails = [(_attr(w, s), c, f'during/after op #{i} {op}: [{s}] {m}') for s, c, m in fine['fails']]
                     break
                 if not res.get('ok') and 'exc' in res and res['exc'].startswith('NotSupported'):
                     raise NotSupported(res['exc'])
@@ -350,7 +362,7 @@ def run_case(case, step_oracle, *, final_oracle=None, nontrivial=None, extra_cla
                     r = await r
                 if r:
                     # a failure in a run where the trigger condition of a listed finding occurred is attributed to that finding
-                    fails = [((w.flags[0] if w.flags else s), c, f'after op #{i} {op}: [{s}] {m}') for s, c, m in r]
+                    fails = [(_attr(w, s), c, f'after op #{i} {op}: [{s}] {m}') for s, c, m in r]
                     break
                 prev = cur
             if not fails and final_oracle is not None:
